@@ -921,6 +921,7 @@ fn gen17(rng: &mut Rng) -> Scen17 {
             response: true,
             unique_tags: false,
             max_section: 10,
+            header_ptr: false,
         };
         let m = gen::gen_msg(rng, &cfg);
         packets.push(gen::encode_with(&m, &cfg, rng.next_u64()));
